@@ -151,7 +151,14 @@ def r161(ctx, rep):
             var = _row_var(lp)
             for y in [x for b in lp.body for x in ast.walk(b) if isinstance(x, ast.Yield)]:
                 t = norm(y.value) if y.value is not None else ''
-                if var is None or t not in (var, 'tuple(%s)' % var):
+                same = (var, 'tuple(%s)' % var)
+                if var is not None and isinstance(y.value, ast.Call) and norm(y.value.func) == 'tuple' and y.value.args \
+                        and isinstance(y.value.args[0], ast.GeneratorExp):
+                    g = y.value.args[0]
+                    if len(g.generators) == 1 and not g.generators[0].ifs and norm(g.generators[0].iter) == var and \
+                            norm(g.elt) == norm(g.generators[0].target):
+                        t = 'tuple(%s)' % var     # tuple(x for x in row) is tuple(row)
+                if var is None or t not in same:
                     ok = False
                     rep.violated('R16.1', fn, 'yield ' + t,
                                  'the pass-through view yields `%s`, not the row it pulled (`%s`)' % (t, var), y)
@@ -210,6 +217,14 @@ def _leaves_only_on_stop(lp):
 
 
 # ------------------------------------------------------------------------ R16.2
+def _drop_redundant_flush(effects):
+    """flush() is redundant when the same sink is detached in a finally
+    (TextIOWrapper.detach() flushes): compare skeletons without it."""
+    if any(e.kind == 'detach' and e.region == 'finally' for e in effects):
+        return [e for e in effects if e.kind != 'flush']
+    return effects
+
+
 def _norm_key(e, bind):
     kind, payload, guards, region = e.key()
     if kind == 'open':
@@ -230,8 +245,8 @@ def r162(ctx, rep):
         if len(st) < 3 or len(sw) < 3:
             raise AnalysisError('anchor vanished: sink effects of %s / %s not recognised (%d / %d effects)'
                                 % (tee_fq, to_fq, len(st), len(sw)))
-        kt = [_norm_key(e, {}) for e in st]
-        kw = [_norm_key(e, bind) for e in sw]
+        kt = [_norm_key(e, {}) for e in _drop_redundant_flush(st)]
+        kw = [_norm_key(e, bind) for e in _drop_redundant_flush(sw)]
         pair = '%s == %s' % (tee.qualname, to.qualname)
         if kt == kw:
             rep.held('R16.2', tee, pair, ' . '.join(repr(e) for e in st), tee.node)
